@@ -77,6 +77,9 @@ func (w *world) genComposite(d *txDesc) *types.MutableTransaction {
 	c := w.c
 	payer := w.users[d.Payer].Address
 	other := w.users[(d.Payer+1+c.Intn(len(w.users)-1))%len(w.users)].Address
+	if d.Price > two64div20000 {
+		d.Price = 2500 // overflowing prices are refused before anything runs: exercised by the plain kinds
+	}
 	var script []byte
 	var steps []string
 	heavy := 0
